@@ -675,6 +675,39 @@ Lemma c19_nonvacuous :
    let (s, ok) := recv ex_isender p ex_state in ok = true /\ ibal s (2, AFx, 0) = 20).
 Proof. vm_compute. repeat split. Qed.
 
+(* while governance has EnableErc20 switched off (or the pair disabled) the refund of a transfer that has a tracking record
+   is REFUSED: the acknowledgement / timeout fails as a whole, nothing changes — record and commitment stay, and the
+   delivery can be retried once conversion is enabled again *)
+Lemma refund_refused_while_disabled pk s t :
+  p_denom pk = DAlias t -> in_rel (rel s) (p_chan pk) (p_seq pk) = true ->
+  pair_on s Erc20Switch && pair_on s t = false ->
+  exists e, refund pk s = Err e.
+Proof.
+  intros Hd Hrel Hoff. unfold refund. rewrite Hd.
+  destruct (pay (mint s ModTransfer AVoucher t (p_amt pk)) ModTransfer (p_sender pk) AVoucher t (p_amt pk)) as [s1|s1] eqn:E1; cbn [bind]; [|eauto].
+  destruct (pay s1 (p_sender pk) ModTransfer AVoucher t (p_amt pk)) as [s2|s2] eqn:E2; cbn [bind]; [|eauto].
+  destruct (pay (mint s2 ModTransfer ACoin t (p_amt pk)) ModTransfer (p_sender pk) ACoin t (p_amt pk)) as [s3|s3] eqn:E3; cbn [bind]; [|eauto].
+  assert (SP : same_proj s s3).
+  { eapply same_proj_trans; [apply mint_proj|]. eapply same_proj_trans; [eapply pay_proj; eassumption|].
+    eapply same_proj_trans; [eapply pay_proj; eassumption|].
+    eapply same_proj_trans; [apply mint_proj|]. eapply pay_proj; eassumption. }
+  destruct SP as (R&_&_&_&_&PO&_). rewrite R, Hrel.
+  unfold convert_coin. cbn [pair_on with_rel]. rewrite PO, Hoff. cbn [negb bind]. eauto.
+Qed.
+
+Lemma delivery_refused_while_disabled c q s pk t :
+  find_pk (commits s) c q = Some pk -> p_denom pk = DAlias t -> in_rel (rel s) c q = true ->
+  pair_on s Erc20Switch && pair_on s t = false ->
+  core_deliver on_timeout c q s = s /\ core_deliver (fun pk => on_ack pk false) c q s = s.
+Proof.
+  intros F Hd Hrel Hoff. destruct (find_pk_spec _ _ _ _ F) as [Hc Hq].
+  unfold core_deliver. rewrite F. unfold tx, branch, discard, on_timeout, on_ack.
+  destruct (refund_refused_while_disabled pk (with_commits s (del_pk (commits s) c q)) t Hd) as (e & E).
+  - cbn [rel with_commits]. rewrite Hc, Hq. exact Hrel.
+  - exact Hoff.
+  - rewrite E. split; reflexivity.
+Qed.
+
 (* no impersonation, under the stated disjointness of derived senders from local accounts *)
 Lemma no_impersonation (isender : Z -> Z -> Z) (is_local : Z -> bool) :
   (forall c sd, is_local (isender c sd) = false) ->
